@@ -114,8 +114,8 @@ PLAN = {
     ),
     "C14": dict(
         gen=dict(quick=[("Gen_C14", "Gen_C14.cfg")], thorough=[("Gen_C14", "Gen_C14_T.cfg")]),
-        traces=[("c14", (1, None)), ("c14all", (None, 1))],
-        codecs={"c14": ["iupac"], "c14all": ["iupac"]}, seeded={"c14": False, "c14all": False},
+        traces=[("c14", (1, None)), ("c14all", (None, 1)), ("c14order", (1, 1))],
+        codecs={"c14": ["iupac"], "c14all": ["iupac"], "c14order": ["iupac"]}, seeded={"c14": False, "c14all": False, "c14order": False},
         mc=dict(quick=["MC_C14"]),
         exhaustive=True,
         rule="trytoamino events for all 16^3 IUPAC codons x slice offsets {0, 14} (quick) / all 16 (thorough), "
